@@ -12,11 +12,17 @@ pub struct WsConn {
 
 impl WsConn {
     pub fn connect(port: u16) -> Option<WsConn> {
-        let stream = TcpStream::connect_timeout(&format!("127.0.0.1:{}", port).parse().unwrap(), Duration::from_secs(2)).ok()?;
-        stream.set_nodelay(true).ok()?;
-        stream.set_read_timeout(Some(Duration::from_millis(100))).ok()?;
-        let (ws, _) = tungstenite::client(format!("ws://127.0.0.1:{}/", port), stream).ok()?;
-        Some(WsConn { ws })
+        // patient while the connection is set up (a loaded machine), short read timeouts afterwards
+        for _ in 0..3 {
+            let Ok(stream) = TcpStream::connect_timeout(&format!("127.0.0.1:{}", port).parse().unwrap(), Duration::from_secs(5)) else { continue; };
+            let _ = stream.set_nodelay(true);
+            let _ = stream.set_read_timeout(Some(Duration::from_secs(10)));
+            if let Ok((ws, _)) = tungstenite::client(format!("ws://127.0.0.1:{}/", port), stream) {
+                let _ = ws.get_ref().set_read_timeout(Some(Duration::from_millis(100)));
+                return Some(WsConn { ws });
+            }
+        }
+        None
     }
 
     /// sends a text message, fragmented into frames of at most `max_frame` payload bytes
